@@ -10,6 +10,7 @@ import CallbagModel.Ops.Share
 import CallbagModel.Ops.FromIter
 import CallbagModel.Ops.ForEach
 import CallbagModel.Ops.Compose
+import CallbagModel.Ops.PlugOp
 /-!
 # Operator instances known to the driver and to the Rust harness (same names, same closures on both sides)
 
@@ -95,7 +96,26 @@ def chainOf : List String → Option IntStage
   | s :: rest => (stageOf s).bind fun first =>
       rest.foldl (fun acc nm => acc.bind fun a => (stageOf nm).map fun b => a.then b) (some first)
 
+/-- `at:<j>/<stage>/<n-ary>`: the unary stage applied to member `j` of `merge,N` / `concat,N` / `combine,N` (`Ops/PlugOp.lean`) -/
+def atOf (name : String) : Option Inst :=
+  match (name.drop 3).toString.splitOn "/" with
+  | [js, stage, nary] =>
+    match js.toNat?, stageOf stage, nary.splitOn "," with
+    | some j, some st, ["merge", n] => n.toNat?.map fun n =>
+        haveI : Repr st.Loc := st.reprLoc
+        mkInt (plugOp j st.M (Merge.machine Int n true))
+    | some j, some st, ["concat", n] => n.toNat?.map fun n =>
+        haveI : Repr st.Loc := st.reprLoc
+        mkInt (plugOp j st.M (Concat.machine Int n))
+    | some j, some st, ["combine", n] => n.toNat?.map fun n =>
+        haveI : Repr st.Loc := st.reprLoc
+        { St := st.St × Combine.St Int, Loc := List (CFr st.Loc (Combine.Loc Int)), β := List Int,
+          M := plugOp j st.M (Combine.machine Int n), fb := fmtList, pb := parseIntList, locName := fun l => locTag (reprStr l) }
+    | _, _, _ => none
+  | _ => none
+
 def instOf (name : String) : Option Inst :=
+  if name.startsWith "at:" then atOf name else
   if name.startsWith "chain:" then
     (chainOf ((name.drop 6).toString.splitOn "/")).map fun c => @mkInt c.St c.Loc c.reprLoc c.M 1 none (fun _ => true)
   else
